@@ -3932,7 +3932,17 @@ where
               self.add_error(format!("expected type {}, got {:?}", ident, self.cbor));
             }
           }
-          _ => (),
+          _ => {
+            // The remaining tagged types of the standard prelude (uri, b64url,
+            // encoded-cbor, ...) are checked by the generic tagged-data path:
+            // tag number and content. Any other type name does not match a
+            // tagged item.
+            if let Some(tagged_data_type) = tag_from_token(&lookup_ident(ident.ident)) {
+              return self.visit_type2(&tagged_data_type);
+            }
+
+            self.add_error(format!("expected type {}, got {:?}", ident, self.cbor));
+          }
         }
 
         Ok(())
